@@ -243,6 +243,10 @@ fn check(site: &str, s: &str, case: &str, rep: &mut Report) {
                 rep.violation(&sig("wrong-device"), &format!("device path {:?} reached lipe-scan as {:?}", s, run.scan.device), case, detail());
                 return;
             }
+            Err(e) if e.is_model_limit() => {
+                rep.violation("C04:model-lacks", &format!("device path {:?}: {}", s, e), case, J::Null);
+                return;
+            }
             Err(e) => {
                 rep.violation(&sig("exec-error"), &format!("device path {:?}: {}", s, e), case, detail());
                 return;
